@@ -790,7 +790,36 @@ func mkStrEq(x, y value) value {
 			return true
 		}
 	}
+	// different known lengths, or different leading concrete text
+	if lx, ok := plainLen(x).(int64); ok {
+		if ly, ok := plainLen(y).(int64); ok && lx != ly {
+			return false
+		}
+	}
+	hx, hy := leadText(x), leadText(y)
+	n := len(hx)
+	if len(hy) < n {
+		n = len(hy)
+	}
+	if hx[:n] != hy[:n] {
+		return false
+	}
 	return &Sym{sort: SBool, e: "(= " + tStr(x) + " " + tStr(y) + ")", op: "streq", a: []interface{}{x, y}}
+}
+
+// leadText: the concrete text a string value is known to start with.
+func leadText(v value) string {
+	switch v := v.(type) {
+	case string:
+		return v
+	case *Sym:
+		if segs := segmentsOf(v); len(segs) > 0 {
+			if c, ok := segs[0].(string); ok {
+				return c
+			}
+		}
+	}
+	return ""
 }
 
 func mkStrLt(x, y value) value {
@@ -855,6 +884,16 @@ func mkPrefixOf(pre, s value) value {
 	}
 	if pok && pc == "" {
 		return true
+	}
+	if pok {
+		if lt := leadText(s); lt != "" {
+			if len(lt) >= len(pc) {
+				return strings.HasPrefix(lt, pc)
+			}
+			if !strings.HasPrefix(pc, lt) {
+				return false
+			}
+		}
 	}
 	return &Sym{sort: SBool, e: "(str.prefixof " + tStr(pre) + " " + tStr(s) + ")"}
 }
